@@ -16,6 +16,7 @@ Import ListNotations.
 Inductive rvar : Type :=
 | Vx | Vz | Vneed | Vn | Vnow | Vsec | Vnum | Vlength | Vsize | Vi | Vo | Vs | Vv
 | Voffset | Vtimestamp       (* parameters of setHead; timestamp is also WriteSector's local *)
+| VoldN | VoldNow            (* WriteSector: the run the chunk had before (kept reserved when the header write fails) *)
 | VlenData                   (* len(data) *)
 | Vtab.                      (* r.offsets[z][x] (the only table access the translator accepts) *)
 
@@ -65,12 +66,13 @@ Inductive rstmt (E B : Type) : Type :=
 | SEff2 (k : eff2) (txt : string) (e1 e2 : E)
 | SEff0 (k : eff0) (txt : string)
 | SErrCheck (txt : string)                               (* if err != nil { txt }   (txt ends in a return) *)
+| SErrDo (txt : string) (body : list (rstmt E B))        (* if err != nil { body; txt }   (txt: the return) *)
 | SRet (txt : string)                                    (* return ... (identifiers only) *)
 | SRetBool (txt : string) (c : B).                       (* return <condition> *)
 
 Arguments SText {E B}. Arguments SLet {E B}. Arguments SLoc {E B}. Arguments SIf {E B}.
 Arguments SIfUsed {E B}. Arguments SFor {E B}. Arguments SRange {E B}. Arguments SMark {E B}.
-Arguments SEff {E B}. Arguments SEff2 {E B}. Arguments SEff0 {E B}. Arguments SErrCheck {E B}.
+Arguments SEff {E B}. Arguments SEff2 {E B}. Arguments SEff0 {E B}. Arguments SErrCheck {E B}. Arguments SErrDo {E B}.
 Arguments SRet {E B}. Arguments SRetBool {E B}.
 
 Definition sem_stmt := rstmt (env -> Z) (env -> bool).
@@ -90,6 +92,7 @@ Fixpoint shape {E B} (s : rstmt E B) : shape_stmt :=
   | SEff2 k t _ _ => SEff2 k t tt tt
   | SEff0 k t => SEff0 k t
   | SErrCheck t => SErrCheck t
+  | SErrDo t body => SErrDo t (map shape body)
   | SRet t => SRet t
   | SRetBool t _ => SRetBool t tt
   end.
